@@ -106,6 +106,8 @@ fn main() {
         #[cfg(feature = "compiler")]
         "cargotoml" => incan_verif_kani::tcreplay::cargotoml_main(&args[2..]),
         #[cfg(feature = "compiler")]
+        "testrun" => incan_verif_kani::tcreplay::testrun_main(&args[2..]),
+        #[cfg(feature = "compiler")]
         "fmtcli" => incan_verif_kani::tcreplay::fmtcli_main(&args[2..]),
         #[cfg(feature = "compiler")]
         "fmtrt" => incan_verif_kani::tcreplay::fmtrt_main(&args[2..]),
